@@ -57,8 +57,15 @@ CallerFrameUnchanged(t) == t.unchanged
 ScreenedExact(t) == t.data = Screened(t)
 \* "the aggregated analysis series equal the per-date control and treatment totals of the screened
 \*  data": one record per date, any order of the records
-AnalysisExact(t) == /\ ToSet(t.analysis) = C!TotalsOf(Screened(t))
-                    /\ Len(t.analysis) = Cardinality(ToSet(t.analysis))
+\*  A group without a single screened row on a date has no total there: the series may say 0 or "not a number" (NA),
+\*  but the date itself and the other group's total must be reported.
+NA == -999999998
+HasRow(rows, g, a) == \E j \in 1..Len(rows) : rows[j].grp = g /\ rows[j].date = a.date /\ rows[j].period = a.period
+Settle(rows, a) == [a EXCEPT !.x = IF a.x = NA /\ ~HasRow(rows, "c", a) THEN 0 ELSE a.x,
+                             !.y = IF a.y = NA /\ ~HasRow(rows, "t", a) THEN 0 ELSE a.y]
+AnalysisExact(t) == LET scr == Screened(t)
+                    IN /\ {Settle(scr, t.analysis[j]) : j \in 1..Len(t.analysis)} = C!TotalsOf(scr)
+                       /\ Len(t.analysis) = Cardinality({<<t.analysis[j].date, t.analysis[j].period>> : j \in 1..Len(t.analysis)})
 \* "the reported results do not depend on input row order" (nor on column names / labels): the
 \* abstract report equals that of the reference presentation of the same instance
 SameReport(t, b) == /\ t.none = b.none
